@@ -155,6 +155,10 @@ impl Slatepack {
 
 		to_encrypt.append(&mut self.payload);
 
+		// the metadata now travels inside the encrypted payload only: don't keep a clear copy
+		// that the JSON form of the slatepack would serialize next to the ciphertext
+		self.encrypted_meta = default_enc_metadata();
+
 		let rec_keys: Result<Vec<_>, _> = recipients
 			.into_iter()
 			.map(|addr| {
